@@ -1963,11 +1963,119 @@ def desugar_registration_decorators(trees: list[ast.Module], n: Normaliser) -> N
         t.body = rewrite(t.body)
 
 
+def desugar_translating_context_managers(trees: list[ast.Module], n: Normaliser) -> None:
+    """class CM:                                                      with CM(A, M):           m_h = M
+           def __init__(self, t, m): self.t = t; self.m = m               BODY         ==>     try: BODY
+           def __enter__(self): return None                                                    except A: raise E(m_h) from None
+           def __exit__(self, et, ev, tb):
+               if et is not None and issubclass(et, self.t): raise E(self.m) from None
+               return False
+    (a hand-written context manager whose only effect is to translate one exception family into another; its constructor arguments are
+    evaluated before the block, as in the original)"""
+    cms: dict[str, dict] = {}
+    for t in trees:
+        for c in t.body:
+            if not isinstance(c, ast.ClassDef) or c.bases or c.decorator_list:
+                continue
+            meths = {m.name: m for m in c.body if isinstance(m, ast.FunctionDef)}
+            other = [x for x in c.body if not isinstance(x, ast.FunctionDef) and not (isinstance(x, ast.Expr) and isinstance(x.value, ast.Constant))
+                     and not (isinstance(x, ast.Assign) and any(isinstance(tg, ast.Name) and tg.id == "__slots__" for tg in x.targets))]
+            if other or set(meths) - {"__init__", "__enter__", "__exit__"} or "__exit__" not in meths or "__init__" not in meths:
+                continue
+            init, ex = meths["__init__"], meths["__exit__"]
+            params = [a.arg for a in init.args.args[1:]]
+            if init.args.vararg or init.args.kwarg or init.args.kwonlyargs or init.args.defaults:
+                continue
+            fields: dict[str, str] = {}
+            ok = True
+            for x in init.body:
+                if isinstance(x, ast.Expr) and isinstance(x.value, ast.Constant):
+                    continue
+                if isinstance(x, ast.Assign) and len(x.targets) == 1 and isinstance(x.targets[0], ast.Attribute) and isinstance(x.targets[0].value, ast.Name) \
+                        and x.targets[0].value.id == "self" and isinstance(x.value, ast.Name) and x.value.id in params:
+                    fields[x.targets[0].attr] = x.value.id
+                else:
+                    ok = False
+            en = meths.get("__enter__")
+            if en is not None:
+                eb = [x for x in en.body if not (isinstance(x, ast.Expr) and isinstance(x.value, ast.Constant))]
+                if not (len(eb) == 1 and isinstance(eb[0], ast.Return) and (eb[0].value is None or (isinstance(eb[0].value, ast.Constant) and eb[0].value.value is None)
+                                                                           or (isinstance(eb[0].value, ast.Name) and eb[0].value.id == "self"))):
+                    ok = False
+            xb = [x for x in ex.body if not (isinstance(x, ast.Expr) and isinstance(x.value, ast.Constant))]
+            if not ok or len(ex.args.args) != 4 or not (1 <= len(xb) <= 2) or not isinstance(xb[0], ast.If) or xb[0].orelse or len(xb[0].body) != 1 or not isinstance(xb[0].body[0], ast.Raise):
+                continue
+            if len(xb) == 2 and not (isinstance(xb[1], ast.Return) and (xb[1].value is None or (isinstance(xb[1].value, ast.Constant) and not xb[1].value.value))):
+                continue
+            et = ex.args.args[1].arg
+            test = xb[0].test
+            parts = test.values if isinstance(test, ast.BoolOp) and isinstance(test.op, ast.And) else [test]
+            sub = [p_ for p_ in parts if isinstance(p_, ast.Call) and isinstance(p_.func, ast.Name) and p_.func.id == "issubclass" and len(p_.args) == 2
+                   and isinstance(p_.args[0], ast.Name) and p_.args[0].id == et and isinstance(p_.args[1], ast.Attribute) and isinstance(p_.args[1].value, ast.Name)
+                   and p_.args[1].value.id == "self" and p_.args[1].attr in fields]
+            rest = [p_ for p_ in parts if p_ not in sub]
+            none_ok = all(isinstance(p_, ast.Compare) and isinstance(p_.left, ast.Name) and p_.left.id == et and len(p_.ops) == 1 and isinstance(p_.ops[0], ast.IsNot)
+                          and isinstance(p_.comparators[0], ast.Constant) and p_.comparators[0].value is None for p_ in rest)
+            if len(sub) != 1 or not none_ok:
+                continue
+            # the raise may only mention constructor fields through self
+            raise_ = xb[0].body[0]
+            names_ok = all(not (isinstance(y, ast.Name) and y.id in (et, ex.args.args[2].arg, ex.args.args[3].arg)) for y in ast.walk(raise_))
+            selfs = [y for y in ast.walk(raise_) if isinstance(y, ast.Attribute) and isinstance(y.value, ast.Name) and y.value.id == "self"]
+            if not names_ok or any(y.attr not in fields for y in selfs):
+                continue
+            cms[c.name] = {"params": params, "fields": fields, "type_field": sub[0].args[1].attr, "raise": raise_}
+    if not cms:
+        return
+    counter = [0]
+
+    class T(ast.NodeTransformer):
+        def visit_With(self_, node: ast.With):  # noqa: N805
+            self_.generic_visit(node)
+            if len(node.items) != 1 or node.items[0].optional_vars is not None:
+                return node
+            ce = node.items[0].context_expr
+            if not (isinstance(ce, ast.Call) and isinstance(ce.func, ast.Name) and ce.func.id in cms and not ce.keywords and not any(isinstance(a, ast.Starred) for a in ce.args)):
+                return node
+            info = cms[ce.func.id]
+            if len(ce.args) != len(info["params"]):
+                return node
+            pre: list[ast.stmt] = []
+            bound: dict[str, ast.expr] = {}
+            for pname, a in zip(info["params"], ce.args):
+                if isinstance(a, (ast.Constant, ast.Name)) or (isinstance(a, ast.Attribute) and _movable(a)):
+                    bound[pname] = a
+                else:
+                    counter[0] += 1
+                    nm = f"cm_h{counter[0]}"
+                    pre.append(ast.Assign(targets=[ast.Name(id=nm, ctx=ast.Store())], value=a))
+                    bound[pname] = ast.Name(id=nm, ctx=ast.Load())
+
+            class S(ast.NodeTransformer):
+                def visit_Attribute(self2, x):  # noqa: N805
+                    self2.generic_visit(x)
+                    if isinstance(x.value, ast.Name) and x.value.id == "self" and x.attr in info["fields"]:
+                        return copy.deepcopy(bound[info["fields"][x.attr]])
+                    return x
+            r = S().visit(copy.deepcopy(info["raise"]))
+            handler = ast.ExceptHandler(type=copy.deepcopy(bound[info["fields"][info["type_field"]]]), name=None, body=[r])
+            new_try = ast.Try(body=node.body, handlers=[handler], orelse=[], finalbody=[])
+            n.hit("translating-context-manager->try/except")
+            out = pre + [new_try]
+            for o in out:
+                ast.fix_missing_locations(ast.copy_location(o, node))
+            return out
+    for t in trees:
+        T().visit(t)
+        ast.fix_missing_locations(t)
+
+
 def normalise_idioms(trees: list[ast.Module]) -> dict[str, int]:
     n = Normaliser(trees)
     desugar_int_enums(trees, n)
     instantiate_factories(trees, n)
     desugar_registration_decorators(trees, n)
+    desugar_translating_context_managers(trees, n)
     for t in trees:
         t.body = n.block(t.body)
         ast.fix_missing_locations(t)
